@@ -1494,6 +1494,11 @@ func (self *Analyzer) matchExpression(node pAst.MatchExpression) ast.AnalyzedMat
 		})
 	}
 
+	// without a default arm the match falls through (resulting in null) if no arm matches
+	if defaultArm == nil && !hadTypeErr && (resultType.Kind() == ast.NeverTypeKind || len(node.Arms) == 0) {
+		resultType = ast.NewNullType(node.Range)
+	}
+
 	// create an error if the result type is != unknown and there is no default branch
 	lastSpan := node.Span()
 	if len(node.Arms) > 0 {
